@@ -168,6 +168,31 @@ Definition sub (a b : json) : Prop := sub_b a b = true.
 Definition is_atom (j : json) : bool := match j with JStr _ | JNum _ | JBool _ => true | _ => false end.
 
 
+(* values without duplicate object keys (RFC 8259: names SHOULD be unique) *)
+Fixpoint nodup_keys_b (m : list (bytes * json)) : bool :=
+  match m with
+  | [] => true
+  | (k, _) :: r => negb (existsb (fun kv => bytes_eqb (fst kv) k) r) && nodup_keys_b r
+  end.
+Fixpoint json_wf (j : json) : bool :=
+  match j with
+  | JArr l => (fix go (l : list json) : bool := match l with [] => true | x :: r => json_wf x && go r end) l
+  | JObj m => nodup_keys_b m &&
+              (fix go (m : list (bytes * json)) : bool := match m with [] => true | (_, v) :: r => json_wf v && go r end) m
+  | _ => true
+  end.
+
+(* no array is traversed when selecting along [path] from [items] *)
+Fixpoint noarr_path (d : json) (path : list pathelem) (items : list rpath) : bool :=
+  match path with
+  | [] => true
+  | pe :: r =>
+    forallb (fun l => match get_loc l d with
+                      | Some v => match get_path (pe_path pe) v with Some (JArr _) => false | _ => true end
+                      | None => true
+                      end) items && noarr_path d r (select_step d pe items)
+  end.
+
 (* ---- plan well-formedness (what the planner and the post-processor guarantee) ---- *)
 Definition rep_field_ok (f : field) : bool :=
   match f with
@@ -237,7 +262,10 @@ Section Runs.
   Definition step_ok_b (f : fetch) (s : lstate) : bool :=
     let s' := fst (run_fetch unit clean_exchange f (s, tt)) in
     negb (ls_hard s') && sub_b (ls_data s) (ls_data s') &&
-    (match f_kind f with FEntity => Nat.leb (length (select_items (ls_data s) (f_path f))) 1 | _ => true end) &&
+    (match f_kind f with
+     | FEntity => Nat.leb (length (select_items (ls_data s) (f_path f))) 1 && noarr_path (ls_data s) (f_path f) [[]]
+     | _ => true
+     end) &&
     forallb (contained_b (ls_data s')) (targets f (ls_data s)).
   Fixpoint consistent_from (t : ftree) (s : lstate) : bool :=
     match t with
@@ -250,7 +278,7 @@ Section Runs.
          end) l s
     end.
   (* after every fetch of the fault-free run: no merge failure, the previous data is contained in
-     the new data, an entity fetch had at most one item, every merged answer is contained at its target *)
+     the new data, an entity fetch had at most one item and traversed no array, every merged answer is contained at its target *)
   Definition consistent (t : ftree) : bool := consistent_from t init_state.
 End Runs.
 
